@@ -77,6 +77,9 @@ structure Params where
   firstMax : Nat    -- `max_requests` of the first configured upstream (0 = not set)
   badStatus : List Nat  -- passive unhealthy_status entries (a value < 100 is a class: 5 = 5xx)
   latency  : Bool   -- passive unhealthy_latency configured (a round trip at least that long is a strike)
+  aOn      : Bool   -- active health checks enabled (health_checks.active with a uri)
+  aPasses  : Nat    -- active `passes` threshold (Provision turns < 1 into 1)
+  aFails   : Nat    -- active `fails` threshold (Provision turns < 1 into 1)
   dynamic  : Bool   -- the upstreams come from a dynamic source (`dynamic_upstreams`): they are provisioned and
                     -- released by every loop iteration, which then is a pool holder of its own (see `CfgSt`)
   deriving DecidableEq, Repr
@@ -135,6 +138,9 @@ structure State where
   cfgs     : List CfgSt
   pool     : Key → Option (HostId × Nat)   -- `hosts`: value and usage count
   nextHost : HostId
+  aPass    : HostId → Nat := fun _ => 0    -- Host.activePasses (shared through the pool like the other counters)
+  aFail    : HostId → Nat := fun _ => 0    -- Host.activeFails
+  adown    : List (CfgId × Nat) := []      -- Upstream.unhealthy: (handler, upstream position) marked down by the active checker
 
 def init : State :=
   { now := 0, inflight := fun _ => 0, fails := fun _ => 0, reqs := [], log := [], cfgs := [],
@@ -174,6 +180,7 @@ inductive Action
   | after (r : Nat)                     -- proxyLoopIteration after reverseProxy returned
   | forget (i : Nat)                    -- forgetter i wakes up (timer or ctx.Done) and runs countFail(-1)
   | newIter (r : Nat)                   -- a loop iteration of a handler with dynamic upstreams begins (its own pool holder)
+  | activeCheck (c : CfgId) (i : Nat) (pass : Bool)  -- one active health check of handler c on its i-th upstream completes
   | fallback (r : Nat)                  -- the dynamic source failed: this iteration uses the handler's static upstreams
   | tick
   deriving Repr
@@ -393,6 +400,41 @@ def stepNewReq (s : State) (c : CfgId) (get : Bool) : Option State :=
                                         pc := .start, incs := 0, hist := [] }] }
   | none => none
 
+def isDown (s : State) (c : CfgId) (i : Nat) : Bool := s.adown.contains (c, i)
+
+/-- healthchecks.go doActiveHealthCheck → markHealthy / markUnhealthy, and hosts.go resetHealth:
+    the check's result is counted on the Host (`activePasses` / `activeFails`, shared through the
+    pool); when the count reaches the handler's threshold and the upstream's status actually
+    changes (`setHealthy` reports a flip), both active counters are reset.  Nothing else is
+    touched — in particular not `Host.fails`, which belongs to the passive checker and its
+    forgetters. -/
+def stepActive (s : State) (c : CfgId) (i : Nat) (pass : Bool) : Option State :=
+  match s.cfgs[c]? with
+  | some cs =>
+    match cs.ups[i]? with
+    | some u =>
+      if pass then
+        if decide (cs.par.aPasses ≤ s.aPass u.2 + 1) && isDown s c i then
+          some { s with aPass := upd s.aPass u.2 0, aFail := upd s.aFail u.2 0,
+                        adown := s.adown.filter (· != (c, i)) }
+        else some { s with aPass := upd s.aPass u.2 (s.aPass u.2 + 1) }
+      else
+        if decide (cs.par.aFails ≤ s.aFail u.2 + 1) && !isDown s c i then
+          some { s with aPass := upd s.aPass u.2 0, aFail := upd s.aFail u.2 0, adown := (c, i) :: s.adown }
+        else some { s with aFail := upd s.aFail u.2 (s.aFail u.2 + 1) }
+    | none => none
+  | none => none
+
+/-- the seeded change C09-active-flip-zeroes-passive-fails: `resetHealth` also stores 0 into
+    `Host.fails`.  Kept only for the `…_breaks_…` theorem in `Witness.lean`. -/
+def stepActiveZeroing (s : State) (c : CfgId) (i : Nat) (pass : Bool) : Option State :=
+  match stepActive s c i pass, s.cfgs[c]? with
+  | some s', some cs =>
+    match cs.ups[i]? with
+    | some u => if isDown s' c i != isDown s c i then some { s' with fails := upd s'.fails u.2 0 } else some s'
+    | none => some s'
+  | _, _ => none
+
 def step (s : State) : Action → Option State
   | .newCfg p => some { s with cfgs := s.cfgs ++ [{ par := p, ups := [], held := [], canceled := false }] }
   | .store c k => stepStore s c k
@@ -408,6 +450,7 @@ def step (s : State) : Action → Option State
   | .forget i => stepForget s i
   | .newIter r => stepNewIter s r
   | .fallback r => stepFallback s r
+  | .activeCheck c i pass => stepActive s c i pass
   | .tick => some { s with now := s.now + 1 }
 
 def run (s : State) : List Action → Option State
@@ -427,6 +470,18 @@ inductive Reachable : State → Prop
 def stepOld (s : State) : Action → Option State
   | .delete c k => stepDeleteOld s c k
   | a => step s a
+
+/-- the transition system with the seeded change C09-active-flip-zeroes-passive-fails -/
+def stepZeroing (s : State) : Action → Option State
+  | .activeCheck c i pass => stepActiveZeroing s c i pass
+  | a => step s a
+
+def runZeroing (s : State) : List Action → Option State
+  | [] => some s
+  | a :: as =>
+    match stepZeroing s a with
+    | some s' => runZeroing s' as
+    | none => none
 
 def runOld (s : State) : List Action → Option State
   | [] => some s
@@ -453,13 +508,20 @@ def full (p : Params) (i : Nat) (s : State) (o : HostId) : Bool :=
 
 def available (p : Params) (i : Nat) (s : State) (o : HostId) : Bool := healthy p s o && !full p i s o
 
-/-- selectionpolicies.go FirstSelection.Select (`i` = position of the head of the list) -/
-def firstAvailableFrom (p : Params) (s : State) : Nat → List (Key × HostId) → Option (Key × HostId)
+/-- selectionpolicies.go FirstSelection.Select (`i` = position of the head of the list; `dn` =
+    which positions the active checker has marked down: hosts.go:83-92 Healthy() starts with it) -/
+def firstAvailableFrom (p : Params) (s : State) (dn : Nat → Bool) : Nat → List (Key × HostId) → Option (Key × HostId)
   | _, [] => none
-  | i, u :: rest => if available p i s u.2 then some u else firstAvailableFrom p s (i + 1) rest
+  | i, u :: rest =>
+    if !dn i && available p i s u.2 then some u else firstAvailableFrom p s dn (i + 1) rest
 
+/-- selection among upstreams no active checker looks at (dynamic upstreams) -/
 def firstAvailable (p : Params) (s : State) (ups : List (Key × HostId)) : Option (Key × HostId) :=
-  firstAvailableFrom p s 0 ups
+  firstAvailableFrom p s (fun _ => false) 0 ups
+
+/-- selection among the static upstreams of handler `c` -/
+def firstAvailableOf (p : Params) (s : State) (c : CfgId) (ups : List (Key × HostId)) : Option (Key × HostId) :=
+  firstAvailableFrom p s (isDown s c) 0 ups
 
 /-- caddyhttp.go:230-240 StatusCodeMatches -/
 def statusCodeMatches (actual configured : Nat) : Bool :=
